@@ -76,6 +76,11 @@ W4Ops == Call("load", W4Keys) \cup {Simple("hot_reload")}
 W4rOps == Call("load", {K("N0","c")}) \cup {Simple("hot_reload"), NotifyOp({FileE("c","y")}), NotifyOp({FileE("a","x")}),
           EditOp(F("c","y"), CRef("b")), EditOp(F("a","x"), CVal(3))}
 
+(* W4n: re-wire onto an asset nobody loaded (the reloader thread first-loads it, its AddAsset message *)
+(* arrives after its node exists), then edit that asset ------------------------------------------- *)
+W4nOps == Call("load", {K("N0","c")}) \cup {Simple("hot_reload"), NotifyOp({FileE("c","y")}), NotifyOp({FileE("b","x")}),
+          EditOp(F("c","y"), CRef("b")), EditOp(F("b","x"), CVal(2))}
+
 (* W4d: the shortest histories that re-wire and edit in one batch (D8) ------- *)
 W4dOps == Call("load", {K("L0","b"), K("N0","c")}) \cup {Simple("hot_reload"), NotifyOp({FileE("c","y"), FileE("b","x")}),
           EditOp(F("c","y"), CRef("b")), EditOp(F("b","x"), CVal(2))}
